@@ -8,8 +8,8 @@ export CARGO_NET_OFFLINE=true
 rm -rf $S; mkdir -p $S
 rsync -a --exclude target --exclude replays --exclude .git /verif/ $S/verif/
 # recorded findings are plans over the *committed* corpus (interface / property indices): they mean something else
-# under another corpus, so they are not replayed here
-echo '[]' > $S/verif/known_findings.json
+# under another corpus, so the fixed ones are not replayed here (known ones still suppress their fingerprint)
+python3 -c "import json;p='$S/verif/known_findings.json';k=[e for e in json.load(open(p)) if e['status']=='known'];json.dump(k,open(p,'w'))"
 for seed in "$@"; do
     python3 $S/verif/tools/gen_corpus.py --seed $seed --ifaces 16 > $S/verif/sim/src/corpus_gen.rs
     if ! (cd $S/verif/sim && cargo build --release --offline > $S/build.log 2>&1); then
